@@ -1794,7 +1794,7 @@ func (s *TreeShapeListener) EnterSimple_endpoint(ctx *parser.Simple_endpointCont
 		}
 		return
 	}
-	s.endpointName = ctx.Endpoint_name().GetText()
+	s.endpointName = MustUnescape(ctx.Endpoint_name().GetText())
 	s.recordEndpoint(s.endpointName, s.createLocation(ctx.GetStart()))
 	ep := s.currentApp().Endpoints[s.endpointName]
 
